@@ -14,7 +14,7 @@ ACTION_CONSTRAINT Emit
 VIEW View
 CHECK_DEADLOCK FALSE
 """
-INIT = {"pl": {"cls": "none", "val": "-", "site": "-"}, "depth": 0, "obs": []}
+INIT = {"pl": {"cls": "none", "val": "-", "sent": "F", "inner": "-", "site": "-"}, "depth": 0, "obs": []}
 
 
 def run(chk, tier):
@@ -42,8 +42,8 @@ def run(chk, tier):
     for s in res.get("sample") or []:
         chk.sample({"chain_innermost_first": s["chain"], "specified": json.loads(s["want"])})
     chk.setcov("exhaustive", True)
-    chk.setcov("rule", "every path raise -> cross^(1..%d) -> host of Boundary.tla: 12 payload raisers x 11 frame kinds (JS plain / try-catch-rethrow / "
-               "try-finally, native FunctionCall, reflect-wrapped func with and without error return, ExportTo'd func, ConstructorCall, Proxy trap, getter "
+    chk.setcov("rule", "every path raise -> cross^(1..%d) -> host of Boundary.tla: 12 payload raisers x 12 frame kinds (JS plain / try-catch-rethrow / "
+               "try-finally, native FunctionCall, reflect-wrapped func with and without error return and one returning a new Go error that wraps the callee's Exception, ExportTo'd func, ConstructorCall, Proxy trap, getter "
                "under Runtime.Try, iterator under ForOf) built from real closures; compared: error type, identity of Value(), errors.Is/As reaching the "
                "Go error, top stack frame for script throws, what every catch / finally saw, uncatchable and foreign payloads unobserved" % (4 if thorough else 3))
 
